@@ -69,7 +69,7 @@ def unit_reader(ctx, sym_col):
                     continue
                 v = lst[0]
                 if j == sym_col:
-                    missing = z3.Or(empty, kind == 1, kind == 2)
+                    missing = z3.Or(empty, kind == 1, kind == 2, kind == 3)  # statement: NaN and infinite (either sign) are missing
                     if v is None:
                         ok = missing
                     elif isinstance(v, XFloat):
@@ -80,7 +80,7 @@ def unit_reader(ctx, sym_col):
                     ok = z3.BoolVal(isinstance(v, float) and v == float(conc[j]))
                 alts.append(z3.And(cond, ok))
             goals.append(z3.Or(*alts) if alts else z3.BoolVal(False))
-        ctx.oblige(f"{nm}/post(each cell filed under the group and metric of its own column; empty/NaN/+inf -> missing, other values kept; subject name kept)#p{pi}",
+        ctx.oblige(f"{nm}/post(each cell filed under the group and metric of its own column; empty/NaN/infinite -> missing, other values kept; subject name kept)#p{pi}",
                    p.pc, z3.And(*goals), func=fn, replay="c18.e2e", info=info)
         if not getattr(ctx, "_c18_canary", False):
             ctx._c18_canary = True
